@@ -43,7 +43,7 @@ fn n_asn1(t: Tier) -> usize {
 fn n_fault_docs(t: Tier) -> usize {
     t.pick(2, 40) * (PK_ENCS.len() + SK_ENCS.len() + 1)
 }
-pub const N_SEMANTIC: usize = 3;
+pub const N_SEMANTIC: usize = 4;
 pub fn runs_c19(t: Tier) -> usize {
     1 + n_dist(t) + n_asn1(t) + n_fault_docs(t) * CHUNKS + N_SEMANTIC
 }
@@ -90,6 +90,41 @@ pub fn semantic_docs(p: &mut Prng, w: &mut World, which: usize) {
         }
         w.exec(set("sd.doc", &der::sec1_build_raw(&da, Some(&other), true)));
         w.exec(json!({"op":"doc.sk.read","impl":"lib","enc":"sec1-der","doc":"sd.doc"}));
+    } else if which == 3 {
+        // GM/T 0009 ciphertexts that are well-formed DER but whose INTEGERs have every size from 0
+        // to 65 octets (positive, minimal; also with a 00 pad before a high bit)
+        let da = be32(&d);
+        w.exec(set("sd.d", &da));
+        let sizes = [0usize, 1, 2, 8, 16, 24, 30, 31, 32, 33, 34, 40, 48, 63, 64, 65];
+        for &l1 in &sizes {
+            for &l2 in &sizes {
+                let mk = |p: &mut Prng, l: usize| -> Vec<u8> {
+                    let mut v = p.bytes(l);
+                    if l > 0 {
+                        v[0] = 0x01 | (v[0] & 0x7f);
+                    }
+                    der::tlv(2, &v)
+                };
+                let mut body = mk(p, l1);
+                body.extend_from_slice(&mk(p, l2));
+                body.extend_from_slice(&der::tlv(4, &p.bytes(32)));
+                body.extend_from_slice(&der::tlv(4, &p.bytes(7)));
+                w.exec(set("sd.ct", &der::tlv(0x30, &body)));
+                w.exec(json!({"op":"sm2.decrypt","impl":"lib","d":"sd.d","ct":"sd.ct","order":"C1C3C2","comp":false,"asn1":true}));
+            }
+        }
+        // hash / ciphertext OCTET STRINGs of odd sizes around a genuine x, y
+        w.exec(json!({"op":"sm2.derive_pk","impl":"ref","d":"sd.d","pk":"sd.pk","comp":false}));
+        for hl in [0usize, 1, 31, 33, 64] {
+            for cl in [0usize, 1, 32] {
+                let mut body = der::der_uint(&BigUint::from_bytes_be(&point[1..33]));
+                body.extend_from_slice(&der::der_uint(&BigUint::from_bytes_be(&point[33..65])));
+                body.extend_from_slice(&der::tlv(4, &p.bytes(hl)));
+                body.extend_from_slice(&der::tlv(4, &p.bytes(cl)));
+                w.exec(set("sd.ct", &der::tlv(0x30, &body)));
+                w.exec(json!({"op":"sm2.decrypt","impl":"lib","d":"sd.d","ct":"sd.ct","order":"C1C3C2","comp":false,"asn1":true}));
+            }
+        }
     } else if which == 2 {
         // document shapes: CRLF / CR / no final newline / extra blank lines / one long line in PEM,
         // empty PEM body, DER with indefinite or over-long length octets, trailing bytes
